@@ -16,11 +16,13 @@ import (
 	"crypto/aes"
 	"crypto/cipher"
 	"crypto/des"
+	crand "crypto/rand"
 	"crypto/rsa"
 	"crypto/sha1"
 	"crypto/sha256"
 	"crypto/sha512"
 	"crypto/x509"
+	"crypto/x509/pkix"
 	"encoding/base64"
 	"encoding/pem"
 	"errors"
@@ -1129,5 +1131,76 @@ func xeRSAKey(name string) *rsa.PrivateKey {
 	if name == "mp3" {
 		return xeMp3Key()
 	}
+	if n, ok := xeSizedName(name); ok {
+		k, _ := xeSizedKey(n)
+		return k
+	}
 	return key(name).RSA()
+}
+
+// xeSizedName reads the name "m<octets>" of a key pair whose modulus has that many octets (spec/XmlEnc.tla RcptId).
+func xeSizedName(name string) (int, bool) {
+	var n int
+	if _, err := fmt.Sscanf(name, "m%d", &n); err != nil || fmt.Sprintf("m%d", n) != name || n < 40 || n > 512 {
+		return 0, false
+	}
+	return n, true
+}
+
+var (
+	xeSizedMu  sync.Mutex
+	xeSizedAll = map[int]*xeSized{}
+)
+
+type xeSized struct {
+	once sync.Once
+	key  *rsa.PrivateKey
+	cert *x509.Certificate
+}
+
+// xeSizedKey returns the key pair whose modulus has exactly n octets (8n bits) and a certificate for it, issued by
+// the harness key pair "sp" (a modulus of fewer than 62 octets cannot sign a SHA-256 certificate itself).  The
+// pair is generated once per run with crypto/rand: rsa.GenerateKey is not a function of its random source.
+func xeSizedKey(n int) (*rsa.PrivateKey, *x509.Certificate) {
+	xeSizedMu.Lock()
+	e := xeSizedAll[n]
+	if e == nil {
+		e = &xeSized{}
+		xeSizedAll[n] = e
+	}
+	xeSizedMu.Unlock()
+	e.once.Do(func() {
+		k, err := rsa.GenerateKey(crand.Reader, 8*n)
+		if err != nil {
+			panic(fmt.Sprintf("harness: cannot generate a %d-bit RSA key: %v", 8*n, err))
+		}
+		if k.PublicKey.Size() != n || k.N.BitLen() != 8*n {
+			panic(fmt.Sprintf("harness: generated modulus has %d bits, %d wanted", k.N.BitLen(), 8*n))
+		}
+		issuer := key("sp")
+		tmpl := &x509.Certificate{SerialNumber: big.NewInt(int64(7000 + n)),
+			Subject:   pkix.Name{CommonName: fmt.Sprintf("verif recipient with a %d-bit modulus", 8*n)},
+			NotBefore: issuer.Cert.NotBefore, NotAfter: issuer.Cert.NotAfter}
+		der, err := x509.CreateCertificate(crand.Reader, tmpl, issuer.Cert, &k.PublicKey, issuer.Key)
+		if err != nil {
+			panic("harness: cannot issue a certificate for the generated key: " + err.Error())
+		}
+		c, err := x509.ParseCertificate(der)
+		if err != nil {
+			panic("harness: generated certificate does not parse: " + err.Error())
+		}
+		if pk, ok := c.PublicKey.(*rsa.PublicKey); !ok || pk.N.Cmp(k.N) != 0 || pk.E != k.E {
+			panic("harness: generated certificate does not carry the generated key")
+		}
+		e.key, e.cert = k, c
+	})
+	return e.key, e.cert
+}
+
+// xeRcpt returns the key pair named id ("sp": the stored 2048-bit pair; "m<octets>": a generated one) with its certificate.
+func xeRcpt(id string) (*rsa.PrivateKey, *x509.Certificate) {
+	if n, ok := xeSizedName(id); ok {
+		return xeSizedKey(n)
+	}
+	return key(id).RSA(), key(id).Cert
 }
